@@ -105,6 +105,18 @@ class Skip(Exception):
     pass
 
 
+def offers(m, name):
+    """Does the matrix offer the attribute?  AttributeError means no; any other exception means
+    it is offered but broken (and is then judged where the observable is compared)."""
+    try:
+        getattr(m, name)
+        return True
+    except AttributeError:
+        return False
+    except Exception:  # noqa: BLE001
+        return True
+
+
 def _valid(rec, seed):
     """Decide from dense references alone whether the program is well-defined."""
     return True
@@ -171,7 +183,7 @@ def observables(m, d, acc, cfg, rec, seed):
         tinv = 1e-10 * (1.0 + np.max(np.abs(di))) * cond
         cmp("inv.array", lambda: m.inv.array, di, tinv)
         cmp("inv_matmul_vec", lambda: m.inv @ v_c, np.linalg.solve(d, v_c), tinv)
-    if hasattr(m, "eigval") and np.allclose(d, d.T, atol=1e-12):
+    if offers(m, "eigval") and np.allclose(d, d.T, atol=1e-12):
         w_ref = np.linalg.eigvalsh(d)
         w = cmp("eigval", lambda: np.sort(np.asarray(m.eigval, dtype=float)), w_ref)
         if w is not None:
@@ -203,13 +215,13 @@ def type_clause(rec, m, operand, acc, seed):
         if not isinstance(m, M.SymmetricMatrix):
             bad = "transpose of symmetric-typed matrix lost eigval/eigvec interface"
     if op == "inv" and isinstance(operand, M.PositiveDefiniteMatrix) and \
-            not (hasattr(m, "sqrt") and hasattr(m, "inv")):
+            not (offers(m, "sqrt") and offers(m, "inv")):
         bad = "inverse of positive-definite-typed matrix has no sqrt/inv"
     if op in ("mul", "rmul", "div") and isinstance(operand, M.PositiveDefiniteMatrix) and \
-            rec[1] > 0 and not (hasattr(m, "sqrt") and hasattr(m, "inv")):
+            rec[1] > 0 and not (offers(m, "sqrt") and offers(m, "inv")):
         bad = "positive multiple of positive-definite-typed matrix has no sqrt/inv"
     if op in ("mul", "rmul", "div", "neg") and isinstance(operand, M.SymmetricMatrix) and \
-            not (hasattr(m, "eigval") and hasattr(m, "eigvec")):
+            not (offers(m, "eigval") and offers(m, "eigvec")):
         bad = "scalar multiple of symmetric-typed matrix has no eigval/eigvec"
     if bad:
         acc.violation(driver="programs", config={"program": rec, "seed": seed},
